@@ -49,7 +49,7 @@ long long fk_now_us = 1000000;
 int fk_teardown_mode = 0, fk_poll_horizon = 200, fk_npolls = 0;
 void (*fk_pre_poll_hook)(const struct pollfd *, int, int) = NULL;
 int fk_accept_hard_errors = 0;
-int fk_send_deviated = 0, fk_force_arrival = 0;
+int fk_send_deviated = 0, fk_force_arrival = 0; size_t fk_force_space = 0;
 void (*fk_post_poll_hook)(int) = NULL;
 void (*fk_blocked_hook)(void) = NULL;
 
@@ -205,7 +205,7 @@ outbound_choice(struct ffd * f, int fd)
 {
 	int kind[64], opts[64], n = 0, j, c;	/* 0 unlimited, 1 amount, 2 none, 3 EPIPE, 4 spurious, 5 eintr */
 	if (f->broken) return (1);
-	if (fk_force_arrival) { f->space = INF; return (1); }
+	if (fk_force_arrival) { f->space = fk_force_space ? fk_force_space : INF; return (1); }
 	kind[n++] = 0;
 	for (j = 0; j < nsmenu; j++) { opts[n] = j; kind[n++] = 1; }
 	kind[n++] = 2;
